@@ -169,7 +169,8 @@ def validate_trace(ctx, name, trace_path, index, mode, legacy):
         part = 'trace_%s_%d.ndjson' % (name, rounds)
         open(os.path.join(spec, part), 'w').write('\n'.join(events[offset:]) + '\n')
         cfg = ctx.write_cfg('trace_%s_%d' % (name, rounds), 'TSpec',
-                            {'TraceFile': '"%s"' % part, 'Mode': '"%s"' % mode, 'MaxDepth': 10000, 'MaxNest': 10000},
+                            {'TraceFile': '"%s"' % part, 'Mode': '"%s"' % mode, 'MaxDepth': 10000, 'MaxNest': 10000,
+                             'Dialect': '"v4"' if legacy else '"v5"'},
                             invariants=('NoMismatch',), postcondition='Accepted')
         p = subprocess.run(['timeout', '3000'] + ctx.tlc_cmd('TraceApi', cfg, workers=1), cwd=spec, env=ctx.env,
                            capture_output=True, text=True)
@@ -548,9 +549,9 @@ LEGACY_ASSUME = PATCH_ASSUME + [
 
 PLANS.update({
     'C18': {
-        'quick': [AP('d1', S_ALL, [1, 2], V_ALL, [1, 2, 9], 1, legacy=True),
+        'quick': [AP('d1', S_ALL, [1, 2], V_ALL, [1, 2, 9], 1, legacy=True, respell=True, extra_opt='wsonly=1'),
                   AP('d2', [5, 6], [1, 2], [1, 2, 6, 8, 9], [1, 2, 9], 2, legacy=True)],
-        'thorough': [AP('d1', S_ALL, [1, 2], V_ALL, [1, 2, 9], 1, legacy=True),
+        'thorough': [AP('d1', S_ALL, [1, 2], V_ALL, [1, 2, 9], 1, legacy=True, respell=True, extra_opt='wsonly=1'),
                      AP('d2', [1, 2, 3, 4, 5, 6, 10, 11], [1, 2], V_ALL, [1, 2, 6, 8, 9], 2, legacy=True, timeout=9000)],
         'rule': PATCH_RULE % 'the legacy package\'s Apply is compared structurally (up to member order, numbers by literal) with the '
                 'specification document, or must fail without a document for the failure kinds C18 lists; both settings of the '
@@ -786,7 +787,9 @@ _addB('C07', [B_trace('tb', 'compose', 500)], [B_trace('tb', 'compose', 8000)],
       _TB % ('MergeMergePatches calls', 'the combined patch is judged by Compose and by the law on four documents, with the reference MP and with the library\'s MergePatch'))
 _addB('C06', [B_trace('tb', 'equal', 800)], [B_trace('tb', 'equal', 15000)], _TB % ('Equal calls', 'one side obtained by mutating the other, two independent spellings'))
 _addB('C18', [B_trace('tbL', 'patch', 500, legacy=True)], [B_trace('tbL', 'patch', 8000, legacy=True)],
-      _TB % ('patch traces of the staged legacy package', 'note: the trace specification applies the v5 dialect; see C18 stage notes'))
+      _TB % ('patch traces of the staged legacy package', 'the trace specification is run with Dialect = "v4": operations and failures that '
+             'C18 does not state (root-replacing add, copy from "", tests on strings that need escapes, any failure other than the listed '
+             'kinds) end the trace as don\'t-care'))
 _addB('C04', [B_trace('tb', 'patch', 400), B_trace('tbx', 'mix', 600)], [B_trace('tb', 'patch', 8000), B_trace('tbx', 'mix', 8000)],
       _TB % ('patch, merge, create, compose and equal traces', 'every call under recover(): a panic is recorded in the event and rejected'))
 _addB('C16', [B_trace('ts', 'scan', 600)], [B_trace('ts', 'scan', 12000)],
